@@ -38,40 +38,6 @@ def parseThriftTy (s : String) : Option Ty := (parseTyN 64 s.toList).map (·.1)
 def parseThriftReq : String → Option Req
   | "r" => some .required | "o" => some .optional | "d" => some .default | _ => none
 
-def parseThriftField (s : String) : Option Field :=
-  match s.splitOn "," with
-  | [i, r, nm, t] => do
-    let id ← i.toInt?
-    let req ← parseThriftReq r
-    let ty ← parseThriftTy t
-    pure ⟨id, req, nm, ty⟩
-  | _ => none
-
-def parseThriftDefs (s : String) : Option Defs :=
-  if s == "-" || s == "" then some ⟨[], [], []⟩ else
-  (s.splitOn "|").foldlM (init := (⟨[], [], []⟩ : Defs)) fun d item =>
-    match item.toList with
-    | 't' :: rest =>
-      match (String.ofList rest).splitOn "=" with
-      | [nm, t] => do let ty ← parseThriftTy t; pure { d with typedefs := d.typedefs ++ [(nm, ty)] }
-      | _ => none
-    | 'e' :: rest =>
-      match (String.ofList rest).splitOn "=" with
-      | [nm, vs] => do
-        let vals ← if vs == "" then some [] else (vs.splitOn ",").mapM String.toInt?
-        pure { d with enums := d.enums ++ [(nm, vals)] }
-      | _ => none
-    | 'r' :: k :: rest =>
-      let body := String.ofList rest
-      match body.splitOn "(" with
-      | [nm, fl] => do
-        let kind ← match k with | 's' => some Kind.struct | 'u' => some Kind.union | 'x' => some Kind.exception | _ => none
-        let inner := (fl.dropEnd 1).toString
-        let fields ← if inner == "" then some [] else (inner.splitOn ";").mapM parseThriftField
-        pure { d with structs := d.structs ++ [⟨kind, nm, (nm.splitOn "/").getLast!, fields⟩] }
-      | _ => none
-    | _ => none
-
 def parseIntUntilT (c : Char) (cs : List Char) : Option (Int × List Char) :=
   let (a, r) := takeUntilT c cs
   (String.ofList a).toInt?.map (·, r)
@@ -125,6 +91,48 @@ def parseFieldsN : Nat → List Char → Option (List (Int × Val) × List Char)
 end
 
 def parseThriftVal (s : String) : Option Val := (parseValN (s.length + 2) s.toList).map (·.1)
+
+/-- `id,req,name,type` or `id,req,name,type,default` — the default in the value syntax with `:` for `;`
+(`n5:`, `q6869:`, `[n1:n2:]`), since `;` separates fields. -/
+def parseThriftField (s : String) : Option Field :=
+  match s.splitOn "," with
+  | [i, r, nm, t] => do
+    let id ← i.toInt?
+    let req ← parseThriftReq r
+    let ty ← parseThriftTy t
+    pure ⟨id, req, nm, ty, none⟩
+  | [i, r, nm, t, dv] => do
+    let id ← i.toInt?
+    let req ← parseThriftReq r
+    let ty ← parseThriftTy t
+    let v ← parseThriftVal (dv.replace ":" ";")
+    pure ⟨id, req, nm, ty, some v⟩
+  | _ => none
+
+def parseThriftDefs (s : String) : Option Defs :=
+  if s == "-" || s == "" then some ⟨[], [], []⟩ else
+  (s.splitOn "|").foldlM (init := (⟨[], [], []⟩ : Defs)) fun d item =>
+    match item.toList with
+    | 't' :: rest =>
+      match (String.ofList rest).splitOn "=" with
+      | [nm, t] => do let ty ← parseThriftTy t; pure { d with typedefs := d.typedefs ++ [(nm, ty)] }
+      | _ => none
+    | 'e' :: rest =>
+      match (String.ofList rest).splitOn "=" with
+      | [nm, vs] => do
+        let vals ← if vs == "" then some [] else (vs.splitOn ",").mapM String.toInt?
+        pure { d with enums := d.enums ++ [(nm, vals)] }
+      | _ => none
+    | 'r' :: k :: rest =>
+      let body := String.ofList rest
+      match body.splitOn "(" with
+      | [nm, fl] => do
+        let kind ← match k with | 's' => some Kind.struct | 'u' => some Kind.union | 'x' => some Kind.exception | _ => none
+        let inner := (fl.dropEnd 1).toString
+        let fields ← if inner == "" then some [] else (inner.splitOn ";").mapM parseThriftField
+        pure { d with structs := d.structs ++ [⟨kind, nm, (nm.splitOn "/").getLast!, fields⟩] }
+      | _ => none
+    | _ => none
 
 def parseThriftEvent (tok : String) : Option Event :=
   match tok.splitOn ":" with
@@ -265,7 +273,10 @@ def dumpV (d : Defs) : Nat → Ty → Val → String
           | some fv => s!"{f.id}=" ++ dumpV d n f.ty fv
           | none =>
             if f.req = .optional ∨ sd.kind = .union then "" else
-            -- Go zero value of a non-pointer field that was not read
+            -- a non-pointer field that was not read: the constructor's default, else the Go zero value
+            match f.dflt with
+            | some dv => s!"{f.id}=" ++ dumpV d n f.ty dv
+            | none =>
             match resolve d f.ty with
             | .bool => s!"{f.id}=f"
             | .byte | .i16 | .i32 | .i64 | .enum _ => s!"{f.id}=n0;"
